@@ -47,6 +47,34 @@ func genC03(e *emitter, tier string, seed int64) {
 	if tier == "thorough" {
 		N = 200000
 	}
+	// branch selection, exhaustively: every if / elif / elif / else over truthy and falsy conditions of every
+	// type, with every subset of the blocks empty (an empty taken branch still ends the statement)
+	conds := []string{"true", "false", "1", "0", "\"x\"", "\"\"", "nil", "[0]", "[]", "{\"a\": 1}", "{}", "0.0", "1.5", "k == 1", "pr(0)", "pr(2)"}
+	emitCtl := func(src, gen string) {
+		out := runV1(runCase{Scripts: []scriptSrc{{"main.p", src}}, Entry: "main.p", Point: stdPoint(rng), HasSig: true, SigK: 3000})
+		out["gen"], out["key"], out["strict"] = gen, src, true
+		e.stat(gen)
+		e.emit(out)
+	}
+	for ci := 0; ci < len(conds)*len(conds); ci++ {
+		c1, c2 := conds[ci%len(conds)], conds[ci/len(conds)]
+		c3 := conds[rng.Intn(len(conds))]
+		for mask := 0; mask < 16; mask++ {
+			blk := func(i int, tag string) string {
+				if mask&(1<<i) != 0 {
+					return []string{"{\n}", "{\n  # nothing\n}"}[(mask+i)%2]
+				}
+				return "{\n  r = \"" + tag + "\"\n  p(\"" + tag + "\")\n}"
+			}
+			if tier != "thorough" && mask != 0 && rng.Intn(4) != 0 {
+				continue
+			}
+			emitCtl("k = 1\nr = \"none\"\nif "+c1+" "+blk(0, "if")+" elif "+c2+" "+blk(1, "elif1")+" elif "+c3+" "+blk(2, "elif2")+" else "+blk(3, "else")+"\np(r)\n", "branch-selection")
+			if mask < 4 {
+				emitCtl("k = 1\nr = \"none\"\nif "+c1+" "+blk(0, "if")+" else "+blk(1, "else")+"\np(r)\nif "+c2+" "+blk(1, "if2")+"\np(r)\n", "branch-selection")
+			}
+		}
+	}
 	for i := 0; i < N; i++ {
 		g := newPG(rng)
 		g.allowBuilt = false
